@@ -794,7 +794,10 @@ func main() {
 	// --- payloads issued by the server itself expire after their lifetime (decided by waiting: the
 	// verdict "must be rejected" only gets safer when the machine is slow)
 	var wgp sync.WaitGroup
-	for i, life := range []int64{1, 2} {
+	// lifetimes 1 s and 3 s, each judged after lifetime + 1.3 s: the embedded time stamp has whole seconds, so
+	// a payload that lives twice its lifetime is still alive then for lifetime 3 whatever the fraction of
+	// the second it was issued in (6 - 1 > 4.3), and a correct one is dead for both
+	for i, life := range []int64{1, 3} {
 		wgp.Add(1)
 		go func(i int, life int64) {
 			defer wgp.Done()
